@@ -136,7 +136,12 @@ def run(scenario, world):
                 continue
             world.probe('regimen_changed_under_likelihood')
         elif o == 'check':
-            vec = points[h][op['point'] % len(points[h])]
+            vec = list(points[h][op['point'] % len(points[h])])
+            for i_ in op.get('negate', []):
+                # a proposal outside the error model's support (sigma < 0):
+                # the score is -inf there, which is a legal evaluation
+                if i_ < len(vec):
+                    vec[i_] = -abs(vec[i_])
             fx = fixed.get(h, {})
             x = np.array([v for i, v in enumerate(vec) if i not in fx])
             n = call(lambda: int(obj.n_parameters()))
@@ -446,6 +451,18 @@ def generate(rng, index, tier):
     shadow_fixed = set()
     n_all = n_ll
     after_fix = False
+    if shape in ('ll', 'lp') and rng.random() < 0.3:
+        # the very first sensitivity evaluation lands outside the support of
+        # an error model (-inf), the next one at the same point inside it
+        j = rng.randrange(n_out)
+        idx = n_mech + sum(zoo.n_error_params(recipes[1 + i]['cls'])
+                           for i in range(j))
+        idx += zoo.n_error_params(recipes[1 + j]['cls']) - 1
+        pt = rng.randint(0, 2)
+        ops.append({'op': 'check', 'on': 'll', 'point': pt,
+                    'order': 's1_first', 'fd': [], 'negate': [idx]})
+        ops.append({'op': 'check', 'on': 'll', 'point': pt,
+                    'order': 's1_first', 'fd': list(range(n_all))})
     cm = [j for j in range(n_out) if recipes[1 + j]['cls'] == 'CM']
     if shape == 'll' and cm and rng.random() < 0.5:
         # an error model with two parameters: fix one, differentiate, move
